@@ -566,6 +566,11 @@ static size_t bundle_ring_length(ring_t *ring)
                   deref(pos+1, ring) << (8*2) |
                   deref(pos+2, ring) << (8*1) |
                   deref(pos+3, ring) << (8*0);
+        //an element cannot be longer than what is left of the buffer
+        //(pos is 32 bit: 4+advance may wrap, up to not advancing at all)
+        if(pos > ring[0].len+ring[1].len ||
+                advance > ring[0].len+ring[1].len-pos)
+            return 0;
         if(advance)
             pos += 4+advance;
     } while(advance);
